@@ -15,6 +15,7 @@ import (
 	"sync"
 
 	"github.com/tormoder/fit"
+	"github.com/tormoder/fit/internal/types"
 )
 
 // C08: results do not depend on call history.
@@ -64,6 +65,69 @@ type c08Obs struct {
 	Main    string `json:"main"`              // Decode*: error class, position, Files; Encode: error class and bytes
 	Decoded string `json:"decoded,omitempty"` // Encode: Decode of the bytes written
 	EncHex  string `json:"-"`
+}
+
+// obsWithShape: the observable of a decoding call plus, for "deeply equal", which slices of the returned Files are
+// nil and which are empty but allocated (the canonical text does not tell them apart): compared between the
+// implementation in a history and the implementation in a fresh process only.
+func obsWithShape(o decOut) string {
+	var sb strings.Builder
+	sb.WriteString(o.observable())
+	sb.WriteString(" shape=")
+	for _, f := range o.Raw {
+		sb.WriteString(nilShape(f))
+		sb.WriteByte('/')
+	}
+	return sb.String()
+}
+
+func nilShape(f *fit.File) (out string) {
+	if f == nil {
+		return "nil"
+	}
+	defer func() {
+		if rec := recover(); rec != nil {
+			out += "!panic"
+		}
+	}()
+	var sb strings.Builder
+	var walk func(v reflect.Value, depth int)
+	walk = func(v reflect.Value, depth int) {
+		switch v.Kind() {
+		case reflect.Ptr:
+			if !v.IsNil() && depth < 4 {
+				walk(v.Elem(), depth+1)
+			}
+		case reflect.Struct:
+			if v.Type().String() == "time.Time" {
+				return
+			}
+			for i := 0; i < v.NumField(); i++ {
+				if v.Type().Field(i).PkgPath == "" {
+					walk(v.Field(i), depth)
+				}
+			}
+		case reflect.Slice:
+			switch {
+			case v.IsNil():
+				sb.WriteByte('n')
+			case v.Len() == 0:
+				sb.WriteByte('e')
+			default:
+				sb.WriteByte('s')
+				if k := v.Type().Elem().Kind(); k == reflect.Ptr || k == reflect.Struct {
+					for i := 0; i < v.Len(); i++ {
+						walk(v.Index(i), depth+1)
+					}
+				}
+			}
+		}
+	}
+	walk(reflect.ValueOf(f).Elem(), 0)
+	if c := containerOf(f); c.IsValid() {
+		walk(c, 0)
+	}
+	return sb.String()
 }
 
 func c08GenFile(in c08Input) *fileCase {
@@ -168,11 +232,11 @@ func c08ImplCall(c c08Call) c08Obs {
 	switch c.Entry {
 	case "D", "C":
 		o := implDecode(c.Entry, c.Opts, readerSpec{Data: c.In.data})
-		return c08Obs{Main: o.observable()}
+		return c08Obs{Main: obsWithShape(o)}
 	case "E":
 		main, data := c08Encode(c08GenFile(c.In))
 		o := implDecode("D", optSet{}, readerSpec{Data: data})
-		return c08Obs{Main: main, Decoded: o.observable(), EncHex: hex.EncodeToString(data)}
+		return c08Obs{Main: main, Decoded: obsWithShape(o), EncHex: hex.EncodeToString(data)}
 	}
 	return c08Obs{Main: "bad entry"}
 }
@@ -313,6 +377,43 @@ func runC08(args []string) int {
 		useCsd, useCyc, usePow := i%2 == 0, rg.chance(1, 2), rg.chance(1, 3)
 		s := c08ComponentStream(rg.fork(), useCsd, useCyc, usePow)
 		addStream(fmt.Sprintf("comp%d_csd%v_cyc%v_pow%v", i, useCsd, useCyc, usePow), "component", s.bytes())
+	}
+	// bare files: a file_id message and nothing else, one per file type -- every container slice stays as File.init
+	// left it, whatever earlier calls returned
+	for _, ft := range profile().validFts {
+		s := &stream{HdrSize: 14, Proto: 0x20, Profile: 2115, HdrCRC: "ok"}
+		s.Records = []record{{Kind: "D", Local: 0, Gmn: 0, Fields: []fieldDefS{{0, 1, 0}}}, {Kind: "M", Local: 0, Pay: []byte{ft}}}
+		addStream(fmt.Sprintf("bare_filetype%d", ft), "bare", s.bytes())
+	}
+	// messages whose numbers agree in the low byte (n and n+256): the same field number defined with the type the
+	// one admits and the other may not -- a decision remembered under a truncated key would leak between them
+	{
+		p := profile()
+		nAl := 0
+		for _, a := range p.msgs {
+			for _, b := range p.msgs {
+				if a.Num == b.Num || a.Num&0xFF != b.Num&0xFF {
+					continue
+				}
+				for _, fa := range a.Fields {
+					for _, fb := range b.Fields {
+						if fa.Num != fb.Num || fa.T.BaseType() == fb.T.BaseType() || fa.T.Array() || nAl >= 60 {
+							continue
+						}
+						bt := fa.T.BaseType()
+						size := bt.Size()
+						if bt == types.BaseString {
+							size = 4
+						}
+						pay := []byte{1, 2, 3, 0, 5, 6, 7, 8}[:size]
+						addStream(fmt.Sprintf("alias_m%d_f%d_own", a.Num, fa.Num), "aliased", singleFieldStream(hostFt(a.Num), false, a.Num, fa.Num, byte(size), byte(bt), pay))
+						addStream(fmt.Sprintf("alias_m%d_f%d_as_m%d", b.Num, fa.Num, a.Num), "aliased", singleFieldStream(hostFt(b.Num), false, b.Num, fa.Num, byte(size), byte(bt), pay))
+						nAl += 2
+					}
+				}
+			}
+		}
+		r.Extra["pool_aliased_message_numbers"] = nAl
 	}
 	var large []c08Input
 	filepath.Walk(filepath.Join(repoRoot, "testdata"), func(p string, info os.FileInfo, err error) error {
@@ -523,7 +624,7 @@ func runC08(args []string) int {
 						idx, c.Entry, c.In.ID, diffAt(impl.observable(), model.observable()), diffAt(model.observable(), impl.observable())),
 						map[string]interface{}{"history": hs[:idx+1], "failing_index": idx})
 				}
-				check(c, hs, idx, impl.observable(), base.Main, "result", c.In.data, impl, model, true)
+				check(c, hs, idx, obsWithShape(impl), base.Main, "result", c.In.data, impl, model, true)
 			case "E":
 				fc := c08GenFile(c.In)
 				main, data := c08Encode(fc)
@@ -550,7 +651,7 @@ func runC08(args []string) int {
 						idx, c.In.ID, diffAt(impl.observable(), model.observable()), diffAt(model.observable(), impl.observable())),
 						map[string]interface{}{"history": hs[:idx+1], "failing_index": idx})
 				}
-				check(c, hs, idx, impl.observable(), base.Decoded, "decoded content", data, impl, model, true)
+				check(c, hs, idx, obsWithShape(impl), base.Decoded, "decoded content", data, impl, model, true)
 			}
 		}
 		// a violation with a replay is in hand: no need to run the remaining histories
@@ -577,11 +678,11 @@ func runC08(args []string) int {
 			impl := implDecode("D", optSet{}, readerSpec{Data: in.data})
 			r.count(in.ID+fmt.Sprint(rep), impl.ErrClass == 0)
 			r.hist("call_D_testdata_large")
-			if impl.observable() != baseline[c.key()].Main {
+			if obsWithShape(impl) != baseline[c.key()].Main {
 				csd := len(impl.Raw) > 0 && impl.Raw[0] != nil && hasValidCsd(impl.Raw[0])
 				repl := map[string]interface{}{"entry": "Decode", "input": in.ID, "repeat": rep, "has_valid_compressed_speed_distance": csd}
 				what := fmt.Sprintf("Decode of %s in a used process differs from the fresh process\n    fresh  : %.300s\n    history: %.300s", in.ID,
-					diffAt(baseline[c.key()].Main, impl.observable()), diffAt(impl.observable(), baseline[c.key()].Main))
+					diffAt(baseline[c.key()].Main, obsWithShape(impl)), diffAt(obsWithShape(impl), baseline[c.key()].Main))
 				if csd {
 					r.specFail("accum_history", what, repl)
 				} else {
